@@ -177,6 +177,24 @@ func runRL(x *X) {
 		s.Teardown()
 		return
 	}
+	// Biased closing pattern (sequential, so every oracle below still applies): a client
+	// drains its bucket, everybody idles past the bucket expiry (a cleanup tick runs), the
+	// same client is the first one back, another client shows up, the first one bursts again.
+	if nClients >= 2 && c.Intn(2, "expiry-pattern") == 1 {
+		one := func(client string, n int, differential bool) {
+			x.Do("pattern", func() { runScript(client, []rlOp{{kind: "allow", n: n}}, differential) }, onErr)
+		}
+		idle := time.Hour
+		if full := time.Duration(max) * refill; full > idle {
+			idle = full
+		}
+		one("A", max+1, true)
+		x.Advance(idle+11*time.Minute+173*time.Millisecond, onErr)
+		one("A", 1+c.Intn(max, "pattern-k"), true)
+		one("B", 1, false)
+		one("A", max+1, true)
+		x.Probe("expiry-pattern")
+	}
 
 	// ---- oracles over the history ----------------------------------------------
 	per := map[string][]rlEvent{}
